@@ -247,9 +247,13 @@ def _sub(cmd, payload, repo=None):
 
 
 # ------------------------------------------------------------------ 2./3. seeds and edits
-ALPHA = list(" \t\n>-*+_#`~[]()!<&\\1.):\"'=|ax")
-LINES = ["", "text", "# h", "```", "- x", "> q", "    code", "---", "[a]: /u", "1. y", "<div>", "  - z", "***", "> - w", "a  ", "===", "~~~", "+ v", "\tt"]
-LINE_PREFIX = ["> ", "- ", "1. ", " ", "  ", "   ", "    ", "\t", ">", "> > ", "  - "]
+ALPHA = list(" \t\n>-*+_#`~[]()!<&\\1.):\"'=|ax/?%;@{}^$,09Aé")
+LINES = ["", "text", "# h", "```", "- x", "> q", "    code", "---", "[a]: /u", "1. y", "<div>", "  - z", "***", "> - w", "a  ", "===", "~~~", "+ v", "\tt",
+         "<!-- c -->", "[a]: /u 't'", "|a|b|", "> ", "2) k", "- [ ] t", "<b>", "* * *", "##", "    ", "[a]"]
+LINE_PREFIX = ["> ", "- ", "1. ", " ", "  ", "   ", "    ", "\t", ">", "> > ", "  - ", "* ", "+ ", "10) ", ">  ", "-\t", "# "]
+TAILS = [" *e*", " <k>", " `c`", " [l](/u)", " ![i](/u)", " <http://a.b>", " &amp;", " \\*", "  ", " **s**", " [r]", " x", "\\", " ~~d~~", " a@b.c", " www.a.b"]
+UNDER = ["---", "===", "-", "=", "  ---", "--- "]
+WRAPS = [("> ", "> "), ("- ", "  "), ("1. ", "   "), ("> ", ""), ("   ", "   "), ("> - ", ">   "), ("- > ", "  > "), ("* ", "  ")]
 
 
 def seed_pool(rng):
@@ -261,67 +265,111 @@ def seed_pool(rng):
     return [d for d in dict.fromkeys(out) if len(d) <= 600]
 
 
-def edits(doc, rng, n):
-    out = set()
+def literal_atoms(spans):
+    """short string literals of the changed files (marker characters, tag names, keywords the changed code compares with)"""
+    atoms = collections.Counter()
+    for fn in spans:
+        try:
+            tree = ast.parse(open(fn, encoding="utf-8").read())
+        except (OSError, SyntaxError):
+            continue
+        funcs = spans[fn][1]
+        for n in ast.walk(tree):
+            if isinstance(n, ast.Constant) and isinstance(n.value, str) and 1 <= len(n.value) <= 12 and "\n" not in n.value.strip("\n"):
+                if n.value.isidentifier() and len(n.value) > 6:
+                    continue
+                atoms[n.value] += 3 if getattr(n, "lineno", 0) in funcs else 1
+    return [a for a, _ in atoms.most_common(80)]
+
+
+def one_edit(doc, rng, atoms):
     lines = doc.split("\n")
+    k = rng.random()
+    pick = (lambda: rng.choice(atoms)) if atoms and rng.random() < 0.4 else (lambda: rng.choice(ALPHA))
+    if k < 0.14 and doc:
+        i = rng.randrange(len(doc))
+        return doc[:i] + doc[i + 1:]
+    if k < 0.36:
+        i = rng.randrange(len(doc) + 1)
+        return doc[:i] + pick() + doc[i:]
+    if k < 0.44 and doc:
+        i = rng.randrange(len(doc))
+        return doc[:i] + pick() + doc[i + 1:]
+    if k < 0.48 and doc:
+        i = rng.randrange(len(doc))
+        return doc[:i] + doc[i] + doc[i:]
+    ls = list(lines)
+    i = rng.randrange(len(ls))
+    j = rng.random()
+    if j < 0.12 and len(ls) > 1:
+        del ls[i]
+    elif j < 0.2:
+        ls.insert(i, ls[i])
+    elif j < 0.34:
+        ls.insert(rng.randrange(len(ls) + 1), rng.choice(LINES))
+    elif j < 0.5:
+        ls[i] = rng.choice(LINE_PREFIX) + ls[i]
+    elif j < 0.55 and len(ls) > 1:
+        k2 = rng.randrange(len(ls))
+        ls[i], ls[k2] = ls[k2], ls[i]
+    elif j < 0.6:
+        ls[i] = ls[i].lstrip(" >\t-")
+    elif j < 0.74:                      # an inline tail, preferably after a closing delimiter
+        cl = [n for n, l in enumerate(ls) if l and l.rstrip()[-1:] in ")]>`*_\"'"]
+        n = rng.choice(cl) if cl and rng.random() < 0.7 else i
+        ls[n] = ls[n] + rng.choice(TAILS)
+    elif j < 0.84:                      # a setext underline / thematic break after a text line
+        tl = [n for n, l in enumerate(ls) if l.strip() and not l.lstrip().startswith(("#", "```", "~~~", ">", "-", "*", "+"))]
+        n = rng.choice(tl) if tl and rng.random() < 0.8 else i
+        pre = ls[n][:len(ls[n]) - len(ls[n].lstrip(" >"))] if rng.random() < 0.5 else ""
+        ls.insert(n + 1, pre + rng.choice(UNDER))
+    elif j < 0.93:                      # wrap the whole document in a container
+        f, c = rng.choice(WRAPS)
+        ls = [(f if n == 0 else c) + l if (l or c.strip()) else l for n, l in enumerate(ls)]
+    else:                               # split a line in two, indenting the continuation
+        if ls[i]:
+            c = rng.randrange(len(ls[i]) + 1)
+            ls[i:i + 1] = [ls[i][:c], rng.choice(["", " ", "  ", "    "]) + ls[i][c:]]
+    return "\n".join(ls)
+
+
+def edits(doc, rng, n, atoms=()):
+    out = set()
     tries = 0
     while len(out) < n and tries < 4 * n:
         tries += 1
-        k = rng.random()
-        if k < 0.22 and doc:
-            i = rng.randrange(len(doc))
-            m = doc[:i] + doc[i + 1:]
-        elif k < 0.44:
-            i = rng.randrange(len(doc) + 1)
-            m = doc[:i] + rng.choice(ALPHA) + doc[i:]
-        elif k < 0.56 and doc:
-            i = rng.randrange(len(doc))
-            m = doc[:i] + rng.choice(ALPHA) + doc[i + 1:]
-        elif k < 0.62 and doc:
-            i = rng.randrange(len(doc))
-            m = doc[:i] + doc[i] + doc[i:]
-        else:
-            ls = list(lines)
-            i = rng.randrange(len(ls))
-            j = rng.random()
-            if j < 0.2 and len(ls) > 1:
-                del ls[i]
-            elif j < 0.35:
-                ls.insert(i, ls[i])
-            elif j < 0.55:
-                ls.insert(rng.randrange(len(ls) + 1), rng.choice(LINES))
-            elif j < 0.8:
-                ls[i] = rng.choice(LINE_PREFIX) + ls[i]
-            elif j < 0.9 and len(ls) > 1:
-                k2 = rng.randrange(len(ls))
-                ls[i], ls[k2] = ls[k2], ls[i]
-            else:
-                ls[i] = ls[i].lstrip(" >\t-")
-            m = "\n".join(ls)
+        m = doc
+        for _ in range(rng.choice((1, 1, 2, 2, 3))):
+            m = one_edit(m, rng, atoms)
         if m != doc and len(m) <= 700:
             out.add(m)
     return out
 
 
-def pick_seeds(seeds, traces, spans, limit):
-    """seeds that execute changed lines first (one representative per distinct line set, rarest sets first, short documents first)"""
-    hunk = {(f, l) for f, (h, _) in spans.items() for l in h}
+def line_set(hits):
+    return frozenset(tuple(x) for x in hits) if hits else frozenset()
+
+
+def pick_seeds(docs_, traces, hunk, limit, seen_sets=None):
+    """documents that execute changed code: one representative per distinct executed-line set (sets not seen in an earlier generation
+    only, when `seen_sets` is given), sets touching the changed lines first, rarest sets first, short documents first"""
     groups = collections.defaultdict(list)
-    for d, (_, hits) in zip(seeds, traces):
-        if hits:
-            hs = frozenset(tuple(x) for x in hits)
+    for d, (_, hits) in zip(docs_, traces):
+        hs = line_set(hits)
+        if hs and (seen_sets is None or hs not in seen_sets):
             groups[(0 if hs & hunk else 1, hs)].append(d)
     order = sorted(groups.items(), key=lambda kv: (kv[0][0], len(kv[1])))
+    for _, v in order:
+        v.sort(key=len)
     picked, rnd = [], 0
     while len(picked) < limit and any(len(v) > rnd for _, v in order):
-        for (_, _), v in order:
-            v.sort(key=len)
+        for _, v in order:
             if len(v) > rnd and len(picked) < limit:
                 picked.append(v[rnd])
         rnd += 1
     reach_hunk = sum(len(v) for (k, _), v in groups.items() if k == 0)
     reach_func = sum(len(v) for v in groups.values())
-    return picked, reach_hunk, reach_func, len(groups)
+    return picked, reach_hunk, reach_func, {hs for (_, hs) in groups}
 
 
 # ------------------------------------------------------------------ 5. the property modules' own document-level oracles
@@ -402,7 +450,7 @@ def doc_oracle(prop, texts):
 
 
 # ------------------------------------------------------------------ the search
-def search(ctx, prop, files, budget_docs=24000):
+def search(ctx, prop, files, budget_docs=None, generations=4):
     """-> dict (statistics for the evidence); reports violations through ctx.violation"""
     import vlib
     t0 = time.time()
@@ -412,42 +460,49 @@ def search(ctx, prop, files, budget_docs=24000):
         return st
     rng = random.Random(ctx.seed * 7919 + 17)
     spans = changed_spans(files, vlib.REPO)
+    hunk = {(f, l) for f, (h, _) in spans.items() for l in h}
     st["changed_lines"] = {os.path.relpath(f, vlib.REPO): sorted(h)[:40] for f, (h, _) in spans.items() if f.startswith(vlib.REPO)}
+    atoms = literal_atoms({f: v for f, v in spans.items() if f.startswith(vlib.REPO)})
     parts = {"parse"} if prop in PARSE_PROPS else {"parse", "scan"} if prop in RULE_PROPS else {"parse", "scan", "fix"}
+    cheap = parts == {"parse"}
+    if budget_docs is None:
+        budget_docs = 30000 if cheap else 7000          # candidates per generation
+    chunk = 60 if cheap else 25
     seeds = seed_pool(rng)
-    if parts != {"parse"}:
+    if not cheap:
         seeds = sorted(seeds, key=lambda d: hashlib.sha1(d.encode("utf-8", "surrogatepass")).hexdigest())[:5000]
-    traces = behave(seeds, parts, spans, chunk=25 if parts != {"parse"} else 60)
-    picked, reach_hunk, reach_func, nsets = pick_seeds(seeds, traces, spans, 160)
-    st.update(seeds=len(seeds), seeds_reaching_changed_lines=reach_hunk, seeds_reaching_changed_functions=reach_func, distinct_line_sets=nsets)
-    if not picked:
-        picked = rng.sample(seeds, min(160, len(seeds)))
+    traces = behave(seeds, parts, spans, chunk=chunk)
+    frontier, reach_hunk, reach_func, seen_sets = pick_seeds(seeds, traces, hunk, 200)
+    st.update(seeds=len(seeds), seeds_reaching_changed_lines=reach_hunk, seeds_reaching_changed_functions=reach_func,
+              distinct_line_sets=len(seen_sets), literal_atoms=atoms[:30])
+    if not frontier:
+        frontier = rng.sample(seeds, min(200, len(seeds)))
         st["fallback"] = "no seed executes the changed functions: edits of random seeds"
-    per = max(20, budget_docs // (2 * max(1, len(picked))))
     seen = set(seeds)
-    cand = list(picked)
-    for d in picked:
-        cand += [m for m in edits(d, rng, per) if m not in seen]
-    cand = list(dict.fromkeys(cand))[:budget_docs]
-    seen |= set(cand)
-
-    def divergent(texts):
-        cur = behave(texts, parts, None)
-        pin = behave_pinned(texts, parts)
-        return [t for t, (a, _), b in zip(texts, cur, pin) if a != b[0]]
-
-    d1 = divergent(cand)
-    st.update(round1_candidates=len(cand), round1_divergent=len(d1))
-    d2 = []
-    if d1:
-        base = sorted(d1, key=len)[:80]
-        cand2 = []
-        for d in base:
-            cand2 += [m for m in edits(d, rng, max(20, budget_docs // (4 * len(base)))) if m not in seen]
-        cand2 = list(dict.fromkeys(cand2))[:budget_docs // 2]
-        d2 = divergent(cand2)
-        st.update(round2_candidates=len(cand2), round2_divergent=len(d2))
-    div = sorted(dict.fromkeys(d1 + d2), key=len)[:4000]
+    div, gens = [], []
+    for g in range(generations):
+        per = max(10, budget_docs // max(1, len(frontier)))
+        cand = [d for d in frontier if g == 0]
+        for d in frontier:
+            cand += [m for m in edits(d, rng, per, atoms) if m not in seen]
+        cand = list(dict.fromkeys(cand))[:budget_docs]
+        seen |= set(cand)
+        if not cand:
+            break
+        cur = behave(cand, parts, spans, chunk=chunk)
+        pin = behave_pinned(cand, parts)
+        dv = [t for t, (a, _), b in zip(cand, cur, pin) if a != b[0]]
+        div += dv
+        novel, _, _, new_sets = pick_seeds(cand, cur, hunk, 140, seen_sets)
+        seen_sets |= new_sets
+        gens.append({"candidates": len(cand), "divergent": len(dv), "new_line_sets": len(new_sets)})
+        frontier = list(dict.fromkeys(sorted(dv, key=len)[:60] + novel))
+        if not frontier:
+            frontier = sorted(rng.sample(cand, min(100, len(cand))), key=len)
+        if len(div) >= 3000 or time.time() - t0 > 900:
+            break
+    st["generations"] = gens
+    div = sorted(dict.fromkeys(div), key=len)[:3000]
     st["divergent_documents"] = len(div)
     new = []
     if div:
